@@ -213,8 +213,17 @@ def run(ctx):
         calls = [c for c in ast.walk(conv) if isinstance(c, ast.Call) and norm(c.func) == gname]
         ok = len(calls) == 1 and calls[0].args and norm(calls[0].args[0]) == "f"
         ctx.ob("C01.a", VER, "convert", f"{gname} prints the lowered f", ok, "" if ok else f"{[norm(c) for c in calls]}", conv)
-    calls = [c for c in ast.walk(conv) if isinstance(c, ast.Call) and norm(c.func).startswith("_generate_combinatorial_logic")]
-    ok = len(calls) == 2 and all(norm(c.args[0]) == "f" for c in calls)
+    # (the two emitters may be called directly or through a local name bound to one of them per flavour)
+    alias = {}
+    for n in ast.walk(conv):
+        if isinstance(n, ast.Assign) and len(n.targets) == 1 and isinstance(n.targets[0], ast.Name) and isinstance(n.value, ast.Name) and \
+                n.value.id.startswith("_generate_combinatorial_logic"):
+            alias.setdefault(n.targets[0].id, set()).add(n.value.id)
+    calls = [c for c in ast.walk(conv) if isinstance(c, ast.Call) and (norm(c.func).startswith("_generate_combinatorial_logic") or norm(c.func) in alias)]
+    reached = set()
+    for c in calls:
+        reached |= alias.get(norm(c.func), {norm(c.func)})
+    ok = reached == {"_generate_combinatorial_logic_sim", "_generate_combinatorial_logic_synth"} and all(c.args and norm(c.args[0]) == "f" for c in calls)
     ctx.ob("C01.a", VER, "convert", "comb emitters print the lowered f", ok, "" if ok else f"{[norm(c) for c in calls]}", conv)
     calls = [c for c in ast.walk(conv) if isinstance(c, ast.Call) and norm(c.func) == "_generate_specials"]
     sp = [norm(k.value) for c in calls for k in c.keywords if k.arg == "specials"]
